@@ -175,6 +175,7 @@ Section Parse.
     else if String.eqb name "intoiter" then OIntoIter v w
     else if String.eqb name "next" then ONext v
     else if String.eqb name "nextb" then ONextBack v
+    else if String.eqb name "nth" then ONth v (A 2%nat)
     else if String.eqb name "hint" then OHint v
     else if String.eqb name "asslice" then OAsSlice v
     else if String.eqb name "cloneit" then OCloneIter v w
@@ -276,6 +277,7 @@ Definition class_cfg (name : string) (rel : bool) : tcfg :=
   else if String.eqb name "16x16" then mk 16 16 true else if String.eqb name "16x16c" then mk 16 16 false
   else if String.eqb name "64x64" then mk 64 64 true else if String.eqb name "64x64c" then mk 64 64 false
   else if String.eqb name "2048x8" then mk 2048 8 true else if String.eqb name "2048x8c" then mk 2048 8 false
+  else if String.eqb name "8x8k" then mk 8 8 false      (* Clone observable, no Drop: as the Copy twin *)
   else if String.eqb name "u8" then mk 1 1 false
   else mk 8 8 true.
 
